@@ -34,6 +34,7 @@ RULE = (
     " Round 10: `path_form` (bare, ./name, ../dir/name relative to the working directory); the sweep starts from everything the library's own save left in the directory."
     ' Round 11: `file_name`; opens through a custom opener are intercepted; the second sweep also saves what was loaded and a one-node registry.'
     " Round 12: `hardlink`; directory states record hard links and modes; a file without the owner's read bit after a crash is unreadable."
+    ' Round 13: `prior_saves`, `debug_log` in the forked child.'
 )
 ASSUMPTIONS = [
     "process death with a surviving operating system: bytes handed to write(2) persist, no power-loss reordering",
